@@ -186,7 +186,7 @@ def runStream (prop tiS toS procS readerS writerS extS implS : String) : Result 
               match Stream.specObs cfg bytes with
               | .ok sobs => if sobs.writes == writes then none else some "unprocessed-input-discarded"
               | _ => none
-        else if prop == "C07" then
+        else if prop == "C07" || prop == "C12" || prop == "C13" || prop == "C16" then
           let (bytes, fails) := readerBytes revs
           if fails || !wevs.isEmpty then none
           else
